@@ -305,7 +305,8 @@ func TestC17_DataRange(t *testing.T) {
 const c17Rule = "case = one of: (Pick/Embed) group with the capability x stream {seeded XOF; all-00, all-ff or 'field modulus + k' prefix of 1..200 bytes followed by a seeded XOF, which forces the rejection loops to retry} x data of length {0,1,EmbedLen-1,EmbedLen,EmbedLen+1,EmbedLen+8,any}; " +
 	"(Hash) group with hash-to-group x message length {0,1,31..33,64,127..129,300,any} x DST length {1,16,43,255,256,300,any} where the API takes one. Oracle: (q-1)P = -P in the library, curve/subgroup membership of the encoding in the math/big model, identical result on an equal stream and on a replay of exactly the consumed bytes, " +
 	"Data() = data[:min(len,EmbedLen)] before and after encode/decode, Data() errors instead of panicking on picked points, different message / DST => different point, Ed25519 Hash = RFC 9380 model (validated on the RFC vectors), BLS12-381 hashes identical across the three back-ends. " +
-	"non-trivial = the stream forced at least one retry, |data| >= EmbedLen or 0, |dst| > 255, |msg| = 0 or >= 128; distinct = distinct rendered case"
+	"non-trivial = the stream forced at least one retry, |data| >= EmbedLen or 0, |dst| > 255, |msg| = 0 or >= 128; distinct = distinct rendered case" +
+	" Added after the sensitivity rounds: embed data classes all-ff/all-zero/ff-prefix/zero-prefix, stream class ff00; the cofactor residue group."
 
 func TestC17_PickEmbedHash(t *testing.T) {
 	ev := evFor("C17")
